@@ -140,3 +140,23 @@ let () =
   register "handle" run_handle;
   register "handlespec" run_handlespec;
   register "packreq" run_packreq
+
+(* cfgload (C10, strict loading): the structured description of the generated configuration through [load] *)
+let bytes_of_string (s : string) : n list = List.init (String.length s) (fun i -> n_of_int (Char.code s.[i]))
+let run_cfgload parts =
+  let f = fields parts in
+  let dash s = if s = "-" then "" else s in
+  let el s = if s = "~" then "" else s in
+  let ups = List.map (fun u -> match String.split_on_char ':' u with
+      | [t; a] -> (bytes_of_string (el t), bytes_of_string (el a)) | _ -> failwith "bad up") (split ',' (dash (fld f "ups"))) in
+  let sets = List.map (fun s -> bytes_of_string (el s)) (split ',' (dash (fld f "sets"))) in
+  let rules = List.map (fun r -> match String.split_on_char ':' r with
+      | [rev; dom; rej; fwd] -> { rr_reverse = (rev = "1"); rr_domain = bytes_of_string (el dom);
+                                  rr_reject = n_of_int (int_of_string rej); rr_forward = bytes_of_string (el fwd) }
+      | _ -> failwith "bad rule") (split ',' (dash (fld f "rules"))) in
+  if fld f "unk" = "1" then "rejected" else
+  match load { rc_upstreams = ups; rc_sets = sets; rc_rules = rules } with
+  | Inl _ -> "rejected"
+  | Inr _ -> "started"
+
+let () = register "cfgload" run_cfgload
